@@ -6,6 +6,8 @@ Three loops, three line kinds (each case is a short list of lines; every line bu
   swarm <maxRegen> <maxSteps> <threshold a/b>            (new RegenerativeSwarm; its counters persist)
   supervise <factoryScript> <stepScripts s0|s1|…> <summarizerScript>
   tools <maxIter> <autoExec> <hasSchemas> <hasToolApi> <providerScript> <toolScript> <completeScript>
+  retools <maxIter> <innerMaxIter> <callsPerRound>       (oracle-only search: every tool execution re-enters
+                                                          transcribe_with_tools on the same Nucleus; not modelled)
 
 Scripts are strings of one character per adversary call, the last character repeats, "-" is the empty script.
 The Lean driver (lean/Operon/Drv/C18.lean) realises exactly the same scripted adversaries.  Strings shown to an
@@ -71,7 +73,8 @@ def intd(s: str) -> int:
 
 
 STEP_OUT = {"a": "aaa", "b": "bbb", "c": "ccc", "S": "SUCCESS", "F": "FiNiShEd", "o": "it is solved",
-            "C": "incomplete", "n": "SUCCES", "m": "DON E", "f": "finish", "v": "solve", "k": "complet e"}
+            "C": "incomplete", "n": "SUCCES", "m": "DON E", "f": "finish", "v": "solve", "k": "complet e",
+            "0": "", "_": "   ", "K": "z" * 3000 + " done", "E": "Step limit reached, task failed"}
 
 
 class Payload:
@@ -140,13 +143,13 @@ class C18(Prop):
         k = rng.randint(0, n)
         if real:
             fs = "A"
-            bad = rng.choice("ggeLM")
+            bad = rng.choice("ggeLMbsntKUP")
             gs = {"never": bad, "atk": bad * k + "j", "alt": (bad + "j") * n if k % 2 else ("j" + bad) * n,
                   "echo": "e", "raise": "g" * k + "x", "long": rng.choice("LM") + "e",
-                  "random": "".join(rng.choice("gggjeLMx") for _ in range(n))}[fam]
+                  "random": "".join(rng.choice("gggjeLMxbsntKUP") for _ in range(n))}[fam]
         else:
-            gs = rng.choice(["g", "g", "e", "ge", "L", "M", "gMe", "j", "".join(rng.choice("gjeLM") for _ in range(n)),
-                             "g" * k + "x"])
+            gs = rng.choice(["g", "g", "e", "ge", "L", "M", "gMe", "j", "".join(rng.choice("gjeLMbsntKUP") for _ in range(n)),
+                             "g" * k + "x", "b", "s", "n", "gb", "bg", "Pe", "K", "U", rng.choice("bsnt") * k + "g"])
             inv = rng.choice("IIIWNE")
             val = rng.choice("VVHQZBT")
             fs = {"never": inv, "atk": inv * k + val, "alt": (inv + val) if k % 2 else (val + inv),
@@ -170,16 +173,16 @@ class C18(Prop):
             ss = fill()
             ss[j] = "u" * k + rng.choice("SdFoC" if fam == "atk" else "dFoC")
         elif fam == "same":
-            ss = [rng.choice(["a", "ua", "uua", "ab", "abc", "aab", "aba"])]
+            ss = [rng.choice(["a", "ua", "uua", "ab", "abc", "aab", "aba", "0", "_", "0_", "E", "u0", "L"])]
         elif fam == "two":
             ss = ["".join(rng.choice("ab") for _ in range(nst))]
         elif fam == "near":
-            ss = ["".join(rng.choice("nmfvku") for _ in range(nst))]
+            ss = ["".join(rng.choice("nmfvku0_NLE") for _ in range(nst))]
         elif fam == "raise":
             ss = fill()
             ss[j] = "u" * k + "x"
         else:
-            ss = ["".join(rng.choice("uuuuaabcnmfvkSdFoCx") for _ in range(rng.randint(0, nst))) or "-"
+            ss = ["".join(rng.choice("uuuuaabcnmfvkSdFoCx0_NKLE") for _ in range(rng.randint(0, nst))) or "-"
                   for _ in range(rng.randint(1, nsp))]
         fs = rng.choice(["w", "w", "w", "w", "wr", "r", "w" * j + "x", "".join(rng.choice("wwwrx") for _ in range(nsp))])
         ms_ = rng.choice(["h", "h", "h", "e", "he", "h" * j + "x", "".join(rng.choice("hhex") for _ in range(nsp))])
@@ -199,7 +202,8 @@ class C18(Prop):
         k = rng.randint(0, n)
         ps = {"forever": rng.choice("1123"), "stopat": rng.choice("12") * k + rng.choice("0N"), "none": rng.choice("0N"),
               "raise": "1" * k + "x", "random": "".join(rng.choice("01123Nx") for _ in range(n))}[fam]
-        ts = rng.choice(["o", "o", "f", "of", "o" * k + "x", "".join(rng.choice("ooofx") for _ in range(n))])
+        ts = rng.choice(["o", "o", "f", "of", "o" * k + "x", "".join(rng.choice("ooofxbwngLUP") for _ in range(n)),
+                         "b", "w", "n", "g", "L", "U", "P"])
         cs = rng.choice(["r", "r", "r", "x"])
         return (f"tools {mi} {show_bool(rng.random() < 0.85)} {show_bool(rng.random() < 0.9)} "
                 f"{show_bool(rng.random() < 0.9)} {ps} {ts} {cs}")
@@ -209,6 +213,10 @@ class C18(Prop):
             if i % 40 == 39:                      # malformed stream: unknown ops / wrong arity
                 yield {"lines": [rng.choice(["frob 1 2", "heal 3", "supervise w", "tools 1 1 1", "swarm 1", ""])
                                  or "nop", self._gen_heal(rng)], "note": "malformed"}
+                continue
+            if i % 25 == 7:
+                yield {"lines": [f"retools {rng.choice([0, 1, 2, 3, 4, 5, 6, -1])} {rng.choice([0, 1, 1, 2])} "
+                                 f"{rng.choice([1, 1, 2])}"], "note": "re-entrant tool (oracle only)"}
                 continue
             kind = rng.choice(["heal", "swarm", "tools", "mix"])
             if kind == "heal":
@@ -229,7 +237,7 @@ class C18(Prop):
                 for fs in itertools.product("IVX", repeat=L):
                     heal.append({"lines": [f"heal {mr} 1/4 stub g {''.join(fs)}"], "note": "exhaustive heal"})
             for L in range(1, mr + 3):
-                for gs in itertools.product("gjx", repeat=L):
+                for gs in itertools.product("gjxb", repeat=L):
                     heal.append({"lines": [f"heal {mr} 1/10 real {''.join(gs)} A"], "note": "exhaustive heal real"})
         for mreg in range(0, 3):
             for ms in range(0, 4):
@@ -245,7 +253,7 @@ class C18(Prop):
                         tools.append({"lines": [f"tools {mi} {ae} 1 1 {''.join(ps)} o r"], "note": "exhaustive tools"})
         return [
             {"name": "heal: maxRetries 0..%d x all validator scripts over {invalid,valid,raise} / generator scripts over "
-                     "{garbage,json,raise} up to length maxRetries+2" % (3 if big else 2), "cases": heal},
+                     "{garbage,json,raise,empty} up to length maxRetries+2" % (3 if big else 2), "cases": heal},
             {"name": "swarm: maxRegen 0..2 x maxSteps 0..3 x step scripts over {unique,same,marker,raise} x 2 thresholds",
              "cases": swarm},
             {"name": "tools: maxIter 0..3 x provider scripts over {no calls, one call, raise} x auto_execute", "cases": tools},
@@ -262,6 +270,20 @@ class C18(Prop):
             return head + "z" * (201 - len(head) - len(tail)) + tail
         if item == "e":
             return "echo " + "".join(f"<{n}>" for n in sorted(nonces(ctx)))
+        if item == "b":
+            return ""
+        if item == "s":
+            return "   "
+        if item == "n":
+            return "\n"
+        if item == "t":
+            return "\t \n"
+        if item == "K":
+            return head + "z" * 5000 + tail
+        if item == "U":
+            return f"prix élevé ñ 价格 <{i}> ü"
+        if item == "P":
+            return f"Previous output was invalid. Error: <{i + 600}>\nYour output was: <{i}>"
         if item == "x":
             raise AdvError("generator")
         return f"garbage <{i}>"
@@ -416,7 +438,10 @@ class C18(Prop):
                     rec["steps"].append(None)
                     rec["raised"] = True
                     raise AdvError("step")
-                out = STEP_OUT.get(item) or (f"all done <{g}>" if item == "d" else f"out <{g}>")
+                if item in STEP_OUT:
+                    out = STEP_OUT[item]
+                else:
+                    out = {"d": f"all done <{g}>", "N": f"terminé ñ 价格 <{g}>", "L": "z" * 3000 + f" <{g}>"}.get(item, f"out <{g}>")
                 rec["steps"].append(out)
                 w.memory.add_attempt(task, out)
                 return out
@@ -531,11 +556,14 @@ class C18(Prop):
                 if item == "x":
                     evs.append(("E", str(call.cid), "x"))
                     raise AdvError("tool")
-                if item == "f":
+                if item in ("f", "g"):
                     evs.append(("E", str(call.cid), "f"))
-                    return Res(call.id, f"<{800 + e}>", False, f"<{100 + e}>")
+                    return Res(call.id, f"<{800 + e}>", False, f"<{100 + e}>" if item == "f" else "")
                 evs.append(("E", str(call.cid), "o"))
-                return Res(call.id, f"<{100 + e}>", True, f"<{900 + e}>")
+                out = {"b": "", "w": " \n\t ", "n": None, "L": f"<{100 + e}>" + "z" * 4000 + f"<{700 + e}>",
+                       "U": f"résultat ñ 价格 <{100 + e}>",
+                       "P": f"Q<7>\n\nTool results:\nTool 'x' returned: <{100 + e}>"}.get(item, f"<{100 + e}>")
+                return Res(call.id, out, True, f"<{900 + e}>")
         nuc = self.nu.Nucleus(provider=(WithTools() if hapi else Base()))
         exc = res = None
         try:
@@ -550,6 +578,80 @@ class C18(Prop):
         else:
             r = f"ok {getattr(res, 'rid', '?')}"
         return f"{r} log={log} evs={es}", info
+
+    # --- oracle-only search: a tool that re-enters transcribe_with_tools on the same Nucleus ----------------------
+    def _retools(self, t):
+        """Outside the model's adversary assumption (callbacks do not call back into the loop): judged by the
+        oracle only; the observation line is the constant "ok" on both sides."""
+        mi, inner, ncalls = intd(t[1]), intd(t[2]), max(1, min(3, intd(t[3])))
+        LLMResponse = self.LLMResponse
+        st = {"depth": 0, "calls": 0}
+        outer = {"T": 0, "C": 0}
+        inners = []          # per re-entrant call: {"T": n, "C": n}
+
+        def bump(kind):
+            st["calls"] += 1
+            if st["calls"] > 400:
+                raise Runaway("provider")
+            (outer if st["depth"] == 0 else inners[-1])[kind] += 1
+
+        class Call:
+            def __init__(self, cid):
+                self.id, self.name, self.arguments = f"c{cid}", "t", {}
+
+        class Res:
+            def __init__(self, call_id, output):
+                self.call_id, self.output, self.success, self.error = call_id, output, True, None
+
+        class Prov:
+            name = "adv"
+
+            def is_available(self):
+                return True
+
+            def complete(self, prompt, config=None):
+                bump("C")
+                return LLMResponse("final", "m", 1, 1.0)
+
+            def complete_with_tools(self, prompt, tools=None, config=None):
+                bump("T")
+                return LLMResponse("round", "m", 1, 1.0), [Call(j) for j in range(ncalls)]
+
+        class Plain:
+            def export_tool_schemas(self):
+                return [object()]
+
+            def execute_tool_call(self, call):
+                return Res(call.id, "r")
+
+        class Reentrant(Plain):
+            def execute_tool_call(self, call):
+                st["depth"] += 1
+                inners.append({"T": 0, "C": 0, "limit": inner})
+                try:
+                    nuc.transcribe_with_tools("inner", Plain(), max_iterations=inner)
+                finally:
+                    st["depth"] -= 1
+                return Res(call.id, "r")
+        nuc = self.nu.Nucleus(provider=Prov())
+        exc = None
+        try:
+            nuc.transcribe_with_tools("Q<7>", Reentrant(), max_iterations=mi)
+        except Exception as e:   # noqa
+            exc = e
+        return "ok", {"kind": "retools", "mi": mi, "outer": outer, "inners": inners, "exc": exc}
+
+    def _oracle_retools(self, info, V):
+        mi, outer = info["mi"], info["outer"]
+        if outer["T"] > max(0, mi):
+            V("tool_loop_rounds_le_max_reentrant", f"<= {max(0, mi)} tool rounds of the outer call", outer["T"])
+        if outer["C"] > 1:
+            V("tool_loop_one_final_completion_reentrant", "<= 1 plain completion of the outer call", outer["C"])
+        for r in info["inners"]:
+            if r["T"] > max(0, r["limit"]) or r["C"] > 1:
+                V("tool_loop_rounds_le_max_reentrant_inner", f"<= {max(0, r['limit'])} rounds + 1 completion", r)
+        if info["exc"] is not None:
+            V("tool_loop_returns_reentrant", "a response", repr(info["exc"]))
 
     def run_impl(self, case):
         obs, infos = [], []
@@ -567,6 +669,8 @@ class C18(Prop):
                 o, info = self._supervise(st, t)
             elif len(t) == 8 and t[0] == "tools":
                 o, info = self._tools(t)
+            elif len(t) == 4 and t[0] == "retools":
+                o, info = self._retools(t)
             else:
                 o = "bad-op"
             obs.append(o)
@@ -587,6 +691,8 @@ class C18(Prop):
                 self._oracle_heal(info, V)
             elif info["kind"] == "swarm":
                 self._oracle_swarm(info, V)
+            elif info["kind"] == "retools":
+                self._oracle_retools(info, V)
             else:
                 self._oracle_tools(info, V)
         return out
